@@ -2,8 +2,9 @@
    Vocabulary (Spec.v): a connection set is a relation  rel = source -> receiver -> bool;
    rel_of_edits k n es  is the set-theoretic result of the requests es on n channels of a source of kind k
    (fold of rel_add / rel_del / clear / the err-fb pairing, starting from the empty set; rel_add ignores
-   self-pairs and any pair with an index outside [0, n));  sources_of n R r = the sources of receiver r;
-   truth r ops = all samples the history ops delivered to channel r;  inputs_ok = the blocks of a history
+   self-pairs and any pair with an index outside [0, n));  rel_of_ops k n ops  is the same over a whole
+   history (cycles change nothing, a restart of the source empties the set);  sources_of n R r = the sources of receiver r;
+   truth r ops = all samples the history ops delivered to channel r since the last (re)start;  inputs_ok = the blocks of a history
    are contiguous, all channels get equally long blocks, and every primary trigger frame lies where the
    retained stream supplies a full record (which is where TriggerData can cut one). *)
 From Dastard Require Import Common.ZX Pipeline.Stream C09.Model C09.Spec C09.Proofs.
@@ -34,17 +35,19 @@ Theorem compute_state_lists_connections :
 Proof. exact report_lists_state. Qed.
 Print Assumptions compute_state_lists_connections.
 
-(* What a CLIENT is told: after EVERY request e of any history (requests with arbitrary, also partly invalid,
-   indices, interleaved with cycles), the RPC layer's last GROUPTRIGGER update v names channels only and is,
-   as a set, the set-theoretic result of all requests so far -- which by connections_are_set_semantics and
-   secondaries_are_union is the set Distribute uses.  (The set changes only at requests, so between requests
-   the client's copy stays equal to it.) *)
+(* What a CLIENT is told: after EVERY request and after EVERY restart (Stop + Start) o of any history (requests
+   with arbitrary, also partly invalid, indices, interleaved with cycles and restarts), the RPC layer's last
+   GROUPTRIGGER update v names channels only and is, as a set, the set-theoretic result of the history so far
+   (empty after a restart) -- which by connections_are_set_semantics and secondaries_are_union is the set
+   Distribute uses.  (The set changes only at requests and restarts, so in between the client's copy stays
+   equal to it.) *)
 Theorem report_is_state :
-  forall cf pre e,
-    0 <= cf_n cf -> 0 <= cf_nsamp cf -> inputs_ok cf None 0 (pre ++ [OEdit e]) ->
+  forall cf pre o,
+    (match o with OCycle _ _ => False | _ => True end) ->
+    0 <= cf_n cf -> 0 <= cf_nsamp cf -> inputs_ok cf None 0 (pre ++ [o]) ->
     exists obs v cnt coup,
-      run cf (pre ++ [OEdit e]) = obs ++ [ORep v cnt coup] /\ length obs = length pre /\
-      let R := rel_of_edits (cf_kind cf) (cf_n cf) (edits_of (pre ++ [OEdit e])) in
+      run cf (pre ++ [o]) = obs ++ [ORep v cnt coup] /\ length obs = length pre /\
+      let R := rel_of_ops (cf_kind cf) (cf_n cf) (pre ++ [o]) in
       (forall s r, In (s, r) v -> 0 <= s < cf_n cf /\ 0 <= r < cf_n cf) /\
       (forall s r, 0 <= s < cf_n cf -> 0 <= r < cf_n cf -> (In (s, r) v <-> R s r = true)).
 Proof. exact every_request. Qed.
@@ -60,7 +63,7 @@ Theorem secondaries_are_union :
     exists obs recs,
       run cf (pre ++ [OCycle blk prims]) = obs ++ [OSec recs] /\ length obs = length pre /\
       zlen recs = cf_n cf /\
-      let R := rel_of_edits (cf_kind cf) (cf_n cf) (edits_of pre) in
+      let R := rel_of_ops (cf_kind cf) (cf_n cf) pre in
       forall r, 0 <= r < cf_n cf ->
         (forall f, zcount f (map r_frame (znth [] recs r))
                    = zsum (map (fun s => zcount f (znth [] prims s)) (sources_of (cf_n cf) R r))) /\
@@ -142,13 +145,23 @@ Theorem premises_are_satisfiable :
 Proof. exact (conj ex_inputs_ok ex_secondaries). Qed.
 Print Assumptions premises_are_satisfiable.
 
+(* ... also across a restart of the source: the connection does not survive it, clients are told so, and the
+   next cycle has no secondary until the connection is requested again. *)
+Theorem premises_are_satisfiable_with_restart :
+  inputs_ok ex_cf None 0 r_ops /\
+  map (fun o => match o with ORep v _ _ => (v, []) | OSec r => ([], map (map r_frame) r) | OCrash => ([], []) end)
+      (run ex_cf r_ops)
+  = [([(0, 1)], []); ([], [[]; [103]]); ([], []); ([], [[]; []]); ([(0, 1)], []); ([], [[]; [505]])].
+Proof. exact restart_example. Qed.
+Print Assumptions premises_are_satisfiable_with_restart.
+
 (* Before the fix (AddConnection did not range-check the source): AddConnection(7,1) on 3 channels is
    stored and reported although the set-theoretic result does not contain it, the next cycle with a primary
    dies, and the checker rejects that history; the repaired code ignores the request. *)
 Theorem connections_are_set_semantics_refuted_pre_fix :
   inputs_ok w_cf None 0 w_ops /\
   run_with add_connection_old keeps_fixed true w_cf (init_state 3) w_ops = [ORep [(7, 1)] 1 0; OCrash] /\
-  rel_of_edits Generic 3 (edits_of w_ops) 7 1 = false /\
+  rel_of_ops Generic 3 w_ops 7 1 = false /\
   C09_check w_cf (combine w_ops (run_with add_connection_old keeps_fixed true w_cf (init_state 3) w_ops)) = false /\
   run w_cf w_ops = [ORep [] 0 0; OSec [[]; []; []]].
 Proof. exact out_of_range_source_pre_fix. Qed.
@@ -174,7 +187,7 @@ Theorem report_is_state_refuted_pre_fix :
   map (fun o => match o with ORep v _ _ => (v, []) | OSec r => ([], map (map r_frame) r) | OCrash => ([], []) end)
       (run_with add_connection keeps_fixed false u_cf (init_state 2) u_ops)
     = [([], []); ([], [[]; [3]])] /\
-  rel_of_edits Lancero 2 (edits_of u_ops) 0 1 = true /\
+  rel_of_ops Lancero 2 u_ops 0 1 = true /\
   C09_check u_cf (combine u_ops (run_with add_connection keeps_fixed false u_cf (init_state 2) u_ops)) = false /\
   map (fun o => match o with ORep v _ _ => (v, []) | OSec r => ([], map (map r_frame) r) | OCrash => ([], []) end)
       (run u_cf u_ops)
